@@ -523,3 +523,20 @@ def alloc_rules(ctx, rid):
     LEN = "Vec::len($1)"
     ok = len(oks) == 1 and ("Le", "$2 + %s" % LEN, "10240") in v.guards(oks[0]) and len(errs) == 1 and ("Lt", "10240", "$2 + %s" % LEN) in v.guards(errs[0]) and len(rows) == 4
     ctx.ob(rid, "alloc:succeeds-iff-len+size<=10240", ok, f.loc(0), "Ok under %s; Err under %s" % ([v.guards(b_) for b_ in oks], [v.guards(b_) for b_ in errs]), f)
+
+
+def run_program_access(ctx, rid):
+    """The checker hands each node's VM the *whole* set and the index of the solution being checked."""
+    prog = ctx.prog
+    f = prog.fn("essential_check::solution::run_program")
+    if not ctx.anchor(rid, "fn run_program", f):
+        return
+    ctx.saw(f)
+    v = View(prog, f)
+    bb, t = v.one(r"access::Access::new$")
+    got = [norm(M.render(positional(M.peel(v.pv.of_operand(a), transparent=False)))) for a in t["args"]] if t else []
+    ctx.ob(rid, "run_program:access=(all-solutions-of-the-set,solution_index)", got == ["std::sync::Arc::new(<std::vec::Vec<T, A> as std::clone::Clone>::clone($2.solutions))", "$3"],
+           f.loc(bb) if bb is not None else f.loc(0), "Access::new(%s)" % ", ".join(g[:90] for g in got), f)
+    eb, et = v.one(r"vm::Vm::exec_ops$")
+    ok = et is not None and v.rooted_at(positional(M.peel(v.pv.of_operand(et["args"][2]), transparent=False)), r"access::Access::new$") is not None
+    ctx.ob(rid, "run_program:vm-runs-with-that-access", ok, f.loc(eb) if eb is not None else f.loc(0), "exec_ops(.., access, ..) receives the Access built above", f)
